@@ -21,7 +21,7 @@
 #define MT_MAXP 200
 
 enum { F_ENC_HDR = 1, F_ENC_CK = 2, F_ENC_DATA = 4, F_ENC_PAR = 8, F_DEC = 16, F_DECF = 32, F_REC = 64,
-       F_NEED = 128, F_META = 256, F_VALID = 512, F_SIZE = 1024, F_RC = 2048 };
+       F_NEED = 128, F_META = 256, F_VALID = 512, F_SIZE = 1024, F_RC = 2048, F_INPUT = 4096 };
 
 typedef struct {
     cfg_t c; int desc; int own_desc;
@@ -147,6 +147,8 @@ static void *mt_worker(void *va) {
             if (!same) mt_note(it, F_NEED, "fragments_needed of (%d,%d,%d,%d) for %llx differs from the sequential answer", c.be, c.k, c.m, c.hd, (unsigned long long)pat);
         }
         }
+        /* the fragments handed to decode / reconstruct are still what encode produced */
+        for (int i = 0; i < n; i++) if (memcmp(i < c.k ? ed[i] : ep[i - c.k], it->ref[i], fl)) { mt_note(it, F_INPUT, "fragment %d of (%d,%d,%d,%d) was modified by decode / reconstruct (without %llx)", i, c.be, c.k, c.m, c.hd, (unsigned long long)pat); break; }
         /* readers */
         int qi = (rd * 5 + it->tid) % n; char *qf = qi < c.k ? ed[qi] : ep[qi - c.k];
         fragment_metadata_t md; memset(&md, 0, sizeof md);
@@ -175,11 +177,11 @@ static void mt_report(mt_item *its, int T, const char *what) {
     res_end(all ? "DIFFERENT" : "ok");
     if (!all) return;
     static const struct { const char *prop; unsigned mask; int be; } MAP[] = {
-        { "C01", F_DEC | F_DECF, 0 }, { "C02", F_DEC | F_REC, 0 }, { "C03", F_REC, 0 },
+        { "C01", F_DEC | F_DECF, 0 }, { "C02", F_DEC | F_REC | F_INPUT, 0 }, { "C03", F_REC, 0 },
         { "C04", F_ENC_PAR | F_DEC | F_REC, 6 }, { "C05", F_ENC_PAR | F_DEC | F_REC, 3 }, { "C19", F_ENC_PAR | F_DEC | F_REC | F_NEED, 4 },
         { "C06", F_NEED, 0 }, { "C07", F_ENC_HDR | F_ENC_CK | F_ENC_DATA | F_ENC_PAR | F_RC, 0 }, { "C08", F_SIZE, 0 },
         { "C09", F_META, 0 }, { "C10", F_ENC_CK | F_META | F_VALID, 0 }, { "C12", F_VALID, 0 },
-        { "C15", F_ENC_HDR | F_ENC_CK | F_ENC_DATA | F_ENC_PAR, 0 }, { "C20", F_DECF, 0 },
+        { "C15", F_ENC_HDR | F_ENC_CK | F_ENC_DATA | F_ENC_PAR | F_INPUT, 0 }, { "C20", F_DECF, 0 },
         { "C18", ~0u, 0 },
     };
     for (unsigned i = 0; i < sizeof MAP / sizeof MAP[0]; i++) {
